@@ -22,7 +22,8 @@ LOOKS = [-55.0, -30.0, -10.0, -1.0, 0.0, 1.0, 10.0, 30.0, 55.0]
 DISTS = [10.0, 25.0, 100.0, 300.0, 600.0, 1000.0, 1800.0]
 STORED = [0.0, 10 / 60, -0.5, 3.0, 20.0]
 WINDS = ['none', 'cross15', 'tail', 'head', 'seg3']
-LOADS = {'base': {}, 'g1': {'dm': 'G1', 'bc': 0.365, 'mv': 2600.0}, 'pellet': {'dm': 'G1', 'bc': 0.03, 'mv': 900.0}}
+LOADS = {'base': {}, 'g1': {'dm': 'G1', 'bc': 0.365, 'mv': 2600.0}, 'pellet': {'dm': 'G1', 'bc': 0.03, 'mv': 900.0},
+         'hot': {'atmo': 'hot'}, 'alt5k_multi': {'atmo': 'icao5k', 'dm': 'multi', 'bc': 0.25}}
 ACC = 0.000005
 MAX_STEP = 0.5
 
@@ -110,7 +111,7 @@ def plan(tier):
                 d = {25.0: 100.0, 300.0: 300.0}[d]      # boundaries at 60/150/400 yd must lie short of the zero distance
             cells.append([look, d, 10 / 60, w, 'base', 2.0])
         for look, d in itertools.product([-10.0, 0.0, 30.0], [100.0, 600.0]):
-            for load in ('g1', 'pellet'):
+            for load in ('g1', 'pellet', 'hot', 'alt5k_multi'):
                 cells.append([look, d if load != 'pellet' else d / 10, 0.0, 'none', load, 2.0])
             for sh in (3.2, 0.0, -1.0):
                 cells.append([look, d, 0.0, 'none', 'base', sh])
@@ -120,7 +121,7 @@ def plan(tier):
         for look, d, st, w in itertools.product(LOOKS, DISTS, STORED, WINDS):
             cells.append([look, d, st, w, 'base', 2.0])
         for look, d, st in itertools.product(LOOKS, DISTS, [0.0, 3.0]):
-            for load in ('g1', 'pellet'):
+            for load in ('g1', 'pellet', 'hot', 'alt5k_multi'):
                 cells.append([look, d if load != 'pellet' else d / 10, st, 'none', load, 2.0])
             for sh in (3.2, 0.0, -1.0):
                 cells.append([look, d, st, 'none', 'base', sh])
